@@ -235,6 +235,31 @@ func aggregate(outs []OblOutcome) []*AggOutcome {
 			}
 		}
 	}
+	// a return path that is provably unreachable is fine (e.g. an error return that can never be taken); the unit is
+	// vacuous only when its entry is unreachable or no return path at all is reachable
+	byUnit := map[string][]*AggOutcome{}
+	for _, a := range m {
+		if a.Kind == "canary" && !strings.HasSuffix(a.Name, ":canary:entry") {
+			u := a.Name[:strings.Index(a.Name, ":canary:")]
+			byUnit[u] = append(byUnit[u], a)
+		}
+	}
+	for _, as := range byUnit {
+		anyLive := false
+		for _, a := range as {
+			if a.Status == "nonvacuous" {
+				anyLive = true
+			}
+		}
+		if anyLive {
+			for _, a := range as {
+				if a.Status == "vacuous" {
+					a.Status = "nonvacuous"
+					a.Detail = "return path proved unreachable"
+				}
+			}
+		}
+	}
 	sort.Strings(order)
 	var res []*AggOutcome
 	for _, n := range order {
